@@ -319,7 +319,7 @@ def tree_feats(t, depth=0, ctxk=None, out=None):
 def iter_cases(ctx, rng, n):
   for i in range(n):
     if i % 25 == 11:
-      yield {'kind': 'special', 'which': rng.choice(['target-reregistered', 'rebind-changes-only-the-scope']), 'nest': rng.choice(['bare', 'list', 'dict', 'tuple-in-list']),
+      yield {'kind': 'special', 'which': rng.choice(['target-reregistered', 'rebind-changes-only-the-scope', 'target-registered-after-parse']), 'nest': rng.choice(['bare', 'list', 'dict', 'tuple-in-list']),
              'via': rng.choice(['parse_config', 'bind_parameter']), 'scopes': rng.sample(['left', 'right', 'a/b', 'zz'], 2), 'drop_scope': rng.random() < 0.3,
              'evaluate': rng.random() < 0.7}
       continue
@@ -689,6 +689,36 @@ def run_special(ctx, case):
     v = _unnest(case['nest'], got[0])
     return v() if not case['evaluate'] else v       # an unevaluated reference delivers the (scoped) configurable: call it here
 
+  if case['which'] == 'target-registered-after-parse':
+    # the config is parsed (skip_unknown) BEFORE the module that registers the referenced configurable is imported; the configurable is
+    # registered afterwards. Using the value may be refused (the reference was unknown when it was written) - but if anything is
+    # delivered, it is the target run under exactly the written scope / the scope of the consuming call, anew each time
+    _S['late_n'] = _S.get('late_n', 0) + 1
+    name = 'c4late%d_w%d' % (_S['late_n'], ctx.widx)
+    scoped = not case['drop_scope']
+    ref = '@%s%s%s' % (s1 + '/' if scoped else '', name, ev)
+    gin.parse_config('c4cons2.x = %s\n' % _nest(case['nest'], ref), skip_unknown=True)
+    runs = []
+
+    def late():
+      runs.append(gin.current_scope())
+      return ('L', gin.current_scope())
+    gin.external_configurable(late, name, module='c4')
+    ctx.fp('special', case['which'], case['nest'], case['drop_scope'], case['evaluate'])
+    want = ('L', s1.split('/') if scoped else s2.split('/'))
+    for k in range(2):
+      try:
+        with gin.config_scope(s2):
+          got = deliver()
+      except ValueError:
+        ctx.bucket('late-reference:refused')
+        ctx.count('oracle_evals')
+        continue
+      ctx.bucket('late-reference:delivered')
+      ctx.check(got == want and len(runs) == k + 1, 'reference-ran-under-other-scope',
+                'x = %s parsed before %s was registered; consumer call %d under %r received %r (target runs so far under %r), expected %r' % (
+                    ref, name, k, s2, got, runs, want))
+    return
   if case['which'] == 'rebind-changes-only-the-scope':
     # two references that differ only in their scope are different values: re-binding must take effect
     gin.parse_config('c4cons2.x = %s\n' % _nest(case['nest'], '@%s/c4tgt%s' % (s1, ev)))
